@@ -537,6 +537,63 @@ def rule9_attr(ctx, fl):
     ctx.floor('C16.9', 6)
 
 
+def rule10_yield(ctx, fl):
+    ctx.doc('C16.10', 'sched_yield / pthread_yield (forwarded to the yield body, C16.1): the switch callback re-queues the yielding '
+            'thread with the tail insertion myth_queue_put on the executing worker\'s own queue, so every thread that was already '
+            'runnable there is popped before the yielder is (a head insertion makes two yield-spinning threads hand the worker '
+            'to each other forever: a barrier built on sched_yield terminates on the system library and hangs here)')
+    v = ctx.view('myth_if_native.c', roots=['myth_yield_ex_1', 'myth_yield_ex_body'],
+                 stops=('myth_queue_put', 'myth_queue_push', 'myth_queue_pop', 'myth_ensure_init', 'myth_random') + lib.SPIN_STOPS, flavour=fl)
+    f = ctx.need_fn(v, 'myth_yield_ex_1')
+    enq = call_sites(f, ('myth_queue_put', 'myth_queue_push'))
+    ctx.ob('C16.10', 'myth_yield_ex_1: one re-queue of the yielder', len(enq) == 1 and same_value(f, enq[0].args[1], 'a1'),
+           'the callback enqueues its second argument (the suspended thread) once', loc=f.loc)
+    for c in enq:
+        ctx.ob('C16.10', 'myth_yield_ex_1: yielder goes to the tail', c.callee == 'myth_queue_put',
+               'tail insertion (myth_queue_put), not the head insertion the owner pops first', loc=c.loc)
+        ctx.ob('C16.10', 'myth_yield_ex_1: on the executing worker\'s queue',
+               lib.arg_is_field_of(f, c.args[0], 'myth_running_env.runnable_q') and same_value(f, f.ap(c.args[0]).root, 'a0'),
+               '&env->runnable_q of the env the callback received', loc=c.loc)
+    b = ctx.need_fn(v, 'myth_yield_ex_body')
+    cbs = [i for i in b.order if i.op in ('call', 'asm') and 'myth_yield_ex_1' in repr(i.d)]
+    ctx.ob('C16.10', 'myth_yield_ex_body: switches with myth_yield_ex_1 as callback', len(cbs) >= 1,
+           'the yield body hands the worker over through the re-queuing callback', loc=b.loc)
+    ctx.floor('C16.10', 4)
+
+
+def rule11_sleep(ctx, fl):
+    """sleep / usleep / nanosleep are forwarded (C16.1) to the bodies whose unit conversion and deadline arithmetic C20 decides;
+    the same obligations are stated here for the redirected flavours because the statement lists sleep explicitly"""
+    from . import c20
+    v = ctx.view('myth_if_native.c', roots=['myth_nanosleep_body', 'myth_timespec_gt', 'myth_timespec_add', 'myth_usleep_body', 'myth_sleep_body'],
+                 stops=('hr_gettime', 'myth_yield_body', 'myth_yield_ex_body'), flavour=fl)
+    c20.rule2_arith(ctx, v, rule='C16.11')
+    c20.rule4_conv(ctx, v, rule='C16.11')
+    ctx.doc('C16.11', 'sleep, usleep, nanosleep (shared with C20.2 / C20.4): unit conversion of the request, deadline = start + request '
+            'with the nanosecond carry, lexicographic deadline comparison - a redirected sleep may not return earlier than the system one')
+
+
+def rule12_shared(ctx, fl):
+    """necessary conditions of the listed pthread behaviours that sibling properties decide on the native bodies, evaluated here on the
+    redirected flavours (the bodies are compiled into libmyth-ld / libmyth-dl with their own flags)"""
+    from . import c12, c14
+    ctx.doc('C16.12', 'thread exit with key destructors / pthread_exit (shared with C12.3): the finishing path does not use a worker env '
+            'obtained before application code (a destructor may block and resume the thread on another worker)')
+    c12.rule3_env(ctx, fl, rule='C16.12', only=['myth_exit', 'myth_entry_point', 'myth_create_1', 'myth_testcancel'],
+                  units=[('myth_if_native.c', None)])
+    with ctx.shared({'C12.4': 'C16.13'}, keep=lambda k: k.startswith(('alloc:', 'free:', 'alloc and free')), floor=12,
+                    doc='pthread_attr_setstacksize / setstack (shared with C12.4): custom-size stacks are released with the size they '
+                        'were allocated with'):
+        v2 = ctx.view('myth_if_native.c', roots=['get_new_myth_thread_struct_stack', c12.STACK_FREE, 'myth_flmalloc', 'myth_flfree'],
+                      stops=('myth_freelist_pop', 'myth_freelist_push', 'myth_mmap'), flavour=fl)
+        c12.rule4_affine(ctx, v2)
+    with ctx.shared({'C14.1': 'C16.14', 'C14.2': 'C16.14', 'C14.3': 'C16.14'}, floor=6,
+                    doc='pthread_once (shared with C14.1-3, forwarded by C16.1): one caller is elected by a CAS from the initial value, '
+                        'the routine is called by the elected caller only, completion is published after it, and nobody returns before '
+                        'completion'):
+        c14.rule_body(ctx, fl)
+
+
 def rule8_real(ctx):
     ctx.doc('C16.8', 'myth_real.c, every real_<f> in every flavour: it reaches the system function of the same name - through '
             'real_function_table.<f> (preloading), __real_<f> (link-time wrapping) or <f> itself (vanilla) - passing its own '
@@ -604,6 +661,9 @@ def run(ctx):
         rule6_results(ctx, fl, v, ws)
         rule7_destructor_protocol(ctx, fl)
         rule9_attr(ctx, fl)
+        rule10_yield(ctx, fl)
+        rule11_sleep(ctx, fl)
+        rule12_shared(ctx, fl)
     ctx.unit = 'real'
     rule8_real(ctx)
     ctx.unit = 'link'
@@ -613,7 +673,13 @@ def run(ctx):
 
 WRAP = 'src/myth_wrap_pthread.c'
 OPTS = 'src/myth-ld.opts'
+C16M1_OLD = "  long ns = a->tv_nsec + b->tv_nsec;\n  c->tv_nsec = ns % 1000000000;"
+C16M1_NEW = "  long ns = (a->tv_nsec + b->tv_nsec) % 1000000000;\n  c->tv_nsec = ns;"
 MUTANTS = [
+    {'name': 'deadline addition loses the nanosecond carry (seed3 C16/m1)', 'expect': 'C16.11',
+     'edits': [('src/myth_sched_func.h', C16M1_OLD, C16M1_NEW)]},
+    {'name': 'yield re-queues the yielder at the head (seed3 C16/m2)', 'expect': 'C16.10',
+     'edits': [('src/myth_sched_func.h', "  myth_queue_put(&env->runnable_q, this_thread);\n  env->this_thread = next_thread;", "  myth_queue_push(&env->runnable_q, this_thread);\n  env->this_thread = next_thread;")]},
     {'name': 'attribute translation skips the stack attributes (sweep M0686)', 'expect': 'C16.9',
      'edits': [(WRAP, "    r = pthread_attr_getstack(p, &m->stackaddr, &m->stacksize);\n    assert(r == 0);\n    return m;", "    return m;")]},
     {'name': 'attribute translation dereferences a NULL attribute (sweep M0687)', 'expect': 'C16.9',
